@@ -13,9 +13,13 @@ def main():
     ap.add_argument("prop")
     ap.add_argument("--tier", default=os.environ.get("VERIF_TIER", "quick"))
     ap.add_argument("--replay", default=None)
-    a = ap.parse_args()
+    a, rest = ap.parse_known_args()
     tier = a.tier if a.tier in ("quick", "thorough") else "quick"
     pid = a.prop.upper()
+    if pid == "SELFTEST":
+        from . import selftest
+        common.use_repo()
+        sys.exit(selftest.main(rest))
     if pid == "SETUP":
         from . import setup
         sys.exit(setup.main())
